@@ -799,8 +799,18 @@ def _run_case(case):
                     simple_paths(g, addr, 2000 if g.deep else 400) >= (
                         2000 if g.deep else 400):
                 # exponential cost of a *successful* re-evaluating walk is
-                # not part of this property
+                # not part of this property: the walk is cut short by the
+                # step clock and only a cycle report is judged (there is
+                # no cycle here, whenever the walk ends)
                 bump('skipped_expensive')
+                st = Stepper(max_steps=150_000, max_depth=24 * (exp['R'] + 2))
+                with st:
+                    out = outcome_of(ev.evaluate, target)
+                bump('sim_steps', st.steps)
+                log.append([seq, 'eval-cut-short', target, None, out[:2],
+                            st.steps])
+                if classify(out) == 'cycle' and 'cycle' not in exp['allow']:
+                    viol = judge(seq, target, out, exp, st, 'cut-short')
                 continue
             bud = budgets(exp)
             if exp['allow'] == ['value']:
